@@ -272,6 +272,149 @@ so adding a novel flag never lowers the objective. -/
 theorem major_novel_each_pos : 0 < Const.MAJOR_NOVEL_EACH := by
   unfold Const.MAJOR_NOVEL_EACH; norm_num
 
+/-! ### completeness of the enumeration: the feasible set is an antichain -/
+
+/-- binaries that are pointwise ordered and have the same sum are equal -/
+theorem bins_eq_of_le_of_sum_eq {V : Type} (σ τ : V → Rat) (xs : List V)
+    (hle : ∀ x ∈ xs, σ x ≤ τ x) (hs : sumVars σ xs = sumVars τ xs) : ∀ x ∈ xs, σ x = τ x := by
+  induction xs with
+  | nil => intro x hx; cases hx
+  | cons y ys ih =>
+    simp only [sumVars_cons] at hs
+    have hy := hle y (by simp)
+    have hrest : sumVars σ ys ≤ sumVars τ ys := by
+      unfold sumVars
+      exact list_sum_le_sum ys σ τ (fun z hz => hle z (by simp [hz]))
+    have e1 : σ y = τ y := by linarith
+    have e2 : sumVars σ ys = sumVars τ ys := by linarith
+    intro x hx
+    rcases List.mem_cons.mp hx with rfl | hx
+    · exact e1
+    · exact ih (fun z hz => hle z (by simp [hz])) e2 x hx
+
+/-- the auxiliary binaries of a variant row are functions of the copy selectors -/
+theorem major_or_xor_values (I : MajorInst) (σ : MVar → Rat) (h : I.build.Sat σ) (m : Mut) (hm : m ∈ I.funcMuts) :
+    (σ (.OR m) = 1 ↔ ∃ s ∈ I.carriers m, σ (va s) = 1) ∧ σ (.XOR m) = 1 ∧ σ (.N m) + σ (.OR m) = 1 ∧
+      IsBin (σ (.OR m)) ∧ IsBin (σ (.N m)) := by
+  have hN := I.sat_bin_N h hm
+  obtain ⟨hO, hX⟩ := I.sat_bin_OR h hm
+  have hcar : ∀ v ∈ (I.carriers m).map va, IsBin (σ v) := by
+    intro v hv
+    obtain ⟨s, hs, rfl⟩ := List.mem_map.mp hv
+    exact I.sat_bin_slot h ((List.mem_filter.mp hs).1)
+  have hor : ∀ c ∈ orCons (MVar.OR m) ((I.carriers m).map va), c.holds σ := by
+    intro c hc
+    apply h.2
+    simp only [MajorInst.build, List.mem_append]
+    refine Or.inl (Or.inl (Or.inr ?_))
+    exact List.mem_flatMap.mpr ⟨m, hm, List.mem_append_left _ hc⟩
+  have hxor : ∀ c ∈ xorCons (MVar.XOR m) (MVar.N m) (MVar.OR m), c.holds σ := by
+    intro c hc
+    apply h.2
+    simp only [MajorInst.build, List.mem_append]
+    refine Or.inl (Or.inl (Or.inr ?_))
+    exact List.mem_flatMap.mpr ⟨m, hm, List.mem_append_right _ hc⟩
+  have e1 := (or_gadget σ _ _ hO hcar).mp hor
+  have e2 := (xor_gadget σ _ _ _ hX hN hO).mp hxor
+  refine ⟨?_, e2.1, e2.2, hO, hN⟩
+  constructor
+  · intro h1
+    obtain ⟨v, hv, hv1⟩ := e1.mp h1
+    obtain ⟨s, hs, rfl⟩ := List.mem_map.mp hv
+    exact ⟨s, hs, hv1⟩
+  · rintro ⟨s, hs, hs1⟩
+    exact e1.mpr ⟨va s, List.mem_map.mpr ⟨s, hs, rfl⟩, hs1⟩
+
+/-- **major_active_antichain** no feasible point of the major model has an active set that
+strictly contains the active set of another: if every selector that is on in `σ` is on in `τ`,
+the two points agree on every binary variable (copy selectors by the structure equalities, the
+rest is determined by them).  This is the hypothesis of C05 `run_T6`, hence: every optimal
+combination within the gap is reported, exactly once. -/
+theorem major_active_antichain (I : MajorInst) (σ τ : MVar → Rat) (hσ : I.build.Sat σ) (hτ : I.build.Sat τ)
+    (hcfg : ∀ a ∈ I.alleles, ∃ cc ∈ I.cn.solution, cc.1 = a.cnConfig)
+    (hsub : ∀ s ∈ I.slots, σ (va s) = 1 → τ (va s) = 1) :
+    (∀ s ∈ I.slots, σ (va s) = τ (va s)) ∧
+    (∀ m ∈ I.funcMuts, σ (.OR m) = τ (.OR m) ∧ σ (.N m) = τ (.N m) ∧ σ (.XOR m) = τ (.XOR m)) ∧
+    σ .NOVEL = τ .NOVEL := by
+  -- copy selectors
+  have hle : ∀ s ∈ I.slots, σ (va s) ≤ τ (va s) := by
+    intro s hs
+    rcases I.sat_bin_slot hσ hs with h0 | h1
+    · rw [h0]; exact (I.sat_bin_slot hτ hs).nonneg
+    · rw [h1, hsub s hs h1]
+  have hA : ∀ s ∈ I.slots, σ (va s) = τ (va s) := by
+    intro s hs
+    obtain ⟨a, ha, hsa⟩ : ∃ a ∈ I.alleles, s.1 = a := by
+      obtain ⟨a, ha, hm⟩ := List.mem_flatMap.mp hs
+      obtain ⟨i, _, rfl⟩ := List.mem_map.mp hm
+      exact ⟨a, ha, rfl⟩
+    obtain ⟨cc, hcc, hcfgeq⟩ := hcfg a ha
+    have c1 := major_csat I σ hσ cc hcc
+    have c2 := major_csat I τ hτ cc hcc
+    have hmem : s ∈ I.slots.filter fun s => s.1.cnConfig == cc.1 := by
+      refine List.mem_filter.mpr ⟨hs, ?_⟩
+      rw [hsa, hcfgeq]; simp
+    have := bins_eq_of_le_of_sum_eq σ τ ((I.slots.filter fun s => s.1.cnConfig == cc.1).map va)
+      (by
+        intro x hx
+        obtain ⟨t, ht, rfl⟩ := List.mem_map.mp hx
+        exact hle t (List.mem_filter.mp ht).1)
+      (by
+        have bσ : ∀ v ∈ (I.slots.filter fun s => s.1.cnConfig == cc.1).map va, IsBin (σ v) := by
+          intro v hv
+          obtain ⟨t, ht, rfl⟩ := List.mem_map.mp hv
+          exact I.sat_bin_slot hσ (List.mem_filter.mp ht).1
+        have bτ : ∀ v ∈ (I.slots.filter fun s => s.1.cnConfig == cc.1).map va, IsBin (τ v) := by
+          intro v hv
+          obtain ⟨t, ht, rfl⟩ := List.mem_map.mp hv
+          exact I.sat_bin_slot hτ (List.mem_filter.mp ht).1
+        rw [sumVars_eq_countOnes σ _ bσ, sumVars_eq_countOnes τ _ bτ, c1, c2])
+    exact this (va s) (List.mem_map.mpr ⟨s, hmem, rfl⟩)
+  refine ⟨hA, ?_, ?_⟩
+  · intro m hm
+    obtain ⟨oσ, xσ, sσ, bOσ, _⟩ := major_or_xor_values I σ hσ m hm
+    obtain ⟨oτ, xτ, sτ, bOτ, _⟩ := major_or_xor_values I τ hτ m hm
+    have hiff : (∃ s ∈ I.carriers m, σ (va s) = 1) ↔ (∃ s ∈ I.carriers m, τ (va s) = 1) := by
+      constructor
+      · rintro ⟨s, hs, h1⟩; exact ⟨s, hs, by rw [← hA s (List.mem_filter.mp hs).1]; exact h1⟩
+      · rintro ⟨s, hs, h1⟩; exact ⟨s, hs, by rw [hA s (List.mem_filter.mp hs).1]; exact h1⟩
+    have hO : σ (.OR m) = τ (.OR m) := by
+      rcases bOσ with h0 | h1
+      · rcases bOτ with g0 | g1
+        · rw [h0, g0]
+        · have := oσ.mpr (hiff.mpr (oτ.mp g1)); rw [h0] at this; norm_num at this
+      · rw [h1, oτ.mpr (hiff.mp (oσ.mp h1))]
+    refine ⟨hO, by linarith, by rw [xσ, xτ]⟩
+  · have hNeq : ∀ m ∈ I.funcMuts, σ (.N m) = τ (.N m) := by
+      intro m hm
+      obtain ⟨oσ, xσ, sσ, bOσ, _⟩ := major_or_xor_values I σ hσ m hm
+      obtain ⟨oτ, xτ, sτ, bOτ, _⟩ := major_or_xor_values I τ hτ m hm
+      have hiff : (∃ s ∈ I.carriers m, σ (va s) = 1) ↔ (∃ s ∈ I.carriers m, τ (va s) = 1) := by
+        constructor
+        · rintro ⟨s, hs, h1⟩; exact ⟨s, hs, by rw [← hA s (List.mem_filter.mp hs).1]; exact h1⟩
+        · rintro ⟨s, hs, h1⟩; exact ⟨s, hs, by rw [hA s (List.mem_filter.mp hs).1]; exact h1⟩
+      have hO : σ (.OR m) = τ (.OR m) := by
+        rcases bOσ with h0 | h1
+        · rcases bOτ with g0 | g1
+          · rw [h0, g0]
+          · have := oσ.mpr (hiff.mpr (oτ.mp g1)); rw [h0] at this; norm_num at this
+        · rw [h1, oτ.mpr (hiff.mp (oσ.mp h1))]
+      linarith
+    have fσ := major_novel_flag I σ hσ
+    have fτ := major_novel_flag I τ hτ
+    have bσ : IsBin (σ .NOVEL) := hσ.1 (MVar.NOVEL, Kind.bin) (by simp [MajorInst.build])
+    have bτ : IsBin (τ .NOVEL) := hτ.1 (MVar.NOVEL, Kind.bin) (by simp [MajorInst.build])
+    have hiff : (∃ m ∈ I.funcMuts, σ (.N m) = 1) ↔ (∃ m ∈ I.funcMuts, τ (.N m) = 1) := by
+      constructor
+      · rintro ⟨m, hm, h1⟩; exact ⟨m, hm, by rw [← hNeq m hm]; exact h1⟩
+      · rintro ⟨m, hm, h1⟩; exact ⟨m, hm, by rw [hNeq m hm]; exact h1⟩
+    rcases bσ with h0 | h1
+    · rcases bτ with g0 | g1
+      · rw [h0, g0]
+      · have := fσ.mpr (hiff.mpr (fτ.mp g1)); rw [h0] at this; norm_num at this
+    · rw [h1, fτ.mpr (hiff.mp (fσ.mp h1))]
+
+
 /-! ### Non-vacuity: a concrete instance with a feasible point -/
 
 section Example
